@@ -325,8 +325,13 @@ def g_sparse(r, k):
     # mask_to_coo (dense mask: small origin only).  nnz == 0 is what sparseframe.from_data_mask passes for an empty
     # mask: the kernel answers 3 and must not touch the (empty) outputs
     if not big:
-        calls.append(dict(fn="mask_to_coo", res="int", cls="mask_to_coo:nnz%s" % ("0" if nnz == 0 else "+"),
-                          args=[IN(m.astype(np.int8), "msk"), shape[0], shape[1], OUT(nnz, np.uint16, name="i"),
+        # "on" is any non-zero mask byte: 1, 127, and (a uint8 mask with 128..255 seen as int8) negative values
+        mk = m.astype(np.int8)
+        if nnz and k % 2:
+            mk = np.where(m, r.choice(np.array([1, 2, 127, -1, -128, -77], np.int8), m.shape), 0).astype(np.int8)
+        calls.append(dict(fn="mask_to_coo", res="int", cls="mask_to_coo:nnz%s%s" % ("0" if nnz == 0 else "+",
+                                                                                    ":negative" if (mk < 0).any() else ""),
+                          args=[IN(mk, "msk"), shape[0], shape[1], OUT(nnz, np.uint16, name="i"),
                                 OUT(nnz, np.uint16, name="j"), nnz, SCRATCH(shape[0], np.int32, name="w")],
                           pre="nnz == number of non-zero mask pixels >= 0; w has ns entries"))
         if r.random() < 0.25:
